@@ -6,7 +6,7 @@ from cmdh import commander_check, commander_replay
 def run(chk):
     commander_check(chk, 'Supv.Props.C10', ['C10-'])
     import c16free
-    c16free.liveness_stage(chk, 'C10:free:', [{}, {'ending': True}], 100, 2000)
+    c16free.liveness_stage(chk, 'C10:free:', [{}, {'ending': True}], 100, 6000)
 
 
 def replay(chk, path):
